@@ -63,8 +63,8 @@ fn cell_grid(group: &str, tier: Tier) -> Vec<(f64, f64)> {
     };
     let angles: Vec<f64> = if ita_family(group) == "Monoclinic" {
         match tier {
-            Tier::Quick => vec![PI / 2., PI / 2. - 0.21, PI / 2. - 0.51, PI / 3., PI / 6.],
-            Tier::Thorough => vec![PI / 2., PI / 2. - 0.19, PI / 2. - 0.21, PI / 2. - 0.49, PI / 2. - 0.51, PI / 3., 0.7, PI / 6.],
+            Tier::Quick => vec![PI / 2., PI / 2. - 0.21, PI / 2. - 0.51, PI / 3., PI / 6., 2.1],
+            Tier::Thorough => vec![PI / 2., PI / 2. - 0.19, PI / 2. - 0.21, PI / 2. - 0.49, PI / 2. - 0.51, PI / 3., 0.7, PI / 6., 2.1, 2.6],
         }
     } else {
         vec![PI / 2.]
@@ -291,6 +291,63 @@ pub fn c01(tier: Tier) -> ! {
             run.fail(None, &w, c);
         }
     }
+    // depth-2 histories on one thread: states of every shape at the edge of validity (the last
+    // valid and the first overlapping length of a ladder, chosen by the oracle), every ordered
+    // pair read and scored one after the other on a fresh thread
+    let mut hist_docs: Vec<Value> = vec![];
+    let mut hist_meta: Vec<(String, bool, f64)> = vec![];
+    for spec in shapes.iter() {
+        let body = spec.body();
+        let sj = spec.json();
+        for group in ["p2", "p2gg"].iter() {
+            let tpl = StateTemplate::new(group, &sj);
+            let n = ita_ops(group).len();
+            for &(x, y, phi, ratio) in [(0.13, -0.37, 0.3217505543966422, 0.51), (-0.2856, 0.472, 5.364, 0.8), (0.4, 0.1, 2.5, 0.34)].iter() {
+                let mut prev: Option<(Params, f64)> = None;
+                for &length in length_ladder(&body, n, ratio, PI / 2., 0.97).iter() {
+                    let p = Params { length, ratio, angle: PI / 2., x, y, phi };
+                    let doc = tpl.with(&p);
+                    let st = AnyState::from_json(&doc).unwrap_or_else(|e| machinery_error(&e));
+                    let depth = match lattice_max_depth(&body, &st.cartesian(), &p.lattice(), 400, f64::INFINITY) {
+                        Some(o) => o.depth,
+                        None => break,
+                    };
+                    if depth > 1e-6 {
+                        if let Some((pp, pd)) = prev.take() {
+                            hist_docs.push(tpl.with(&pp));
+                            hist_meta.push((format!("{} {} {}", group, spec.label(), pp.json()), false, pd));
+                        }
+                        hist_docs.push(doc);
+                        hist_meta.push((format!("{} {} {}", group, spec.label(), p.json()), true, depth));
+                        break;
+                    }
+                    if depth < -1e-6 {
+                        prev = Some((p, depth));
+                    }
+                }
+            }
+        }
+    }
+    let hist_alone = scores_alone(&hist_docs);
+    for (k, s) in hist_alone.iter().enumerate() {
+        if s.is_some() && hist_meta[k].1 {
+            run.fail(None, &format!("{}: score {:?} reported although images overlap by {:e}", hist_meta[k].0, s, hist_meta[k].2), json!({"engine": "document", "state": hist_docs[k]}));
+        }
+    }
+    let (hist_pairs, hist_bad) = ordered_pair_histories(&hist_docs);
+    for (k, m) in hist_bad.iter().enumerate() {
+        if k >= 4 {
+            break;
+        }
+        run.fail(
+            None,
+            &format!("{} (deepest overlap {:e}): scores {:?} on a thread of its own but {:?} right after {} was scored on the same thread", hist_meta[m.second].0, hist_meta[m.second].2, m.alone, m.after, hist_meta[m.first].0),
+            json!({"engine": "document-pair", "first": hist_docs[m.first], "second": hist_docs[m.second]}),
+        );
+    }
+    run.set("edge_of_validity_states", hist_docs.len() as u64);
+    run.set("ordered_state_pairs_scored_on_one_thread", hist_pairs);
+    run.set("ordered_state_pairs_with_a_different_score", hist_bad.len() as u64);
     // regression corpus: counterexamples found earlier, with neighbours
     let corpus = corpus_states("C01");
     let mut corpus_n = 0u64;
@@ -346,7 +403,7 @@ pub fn c01(tier: Tier) -> ! {
     run.set("violations_through_images_beyond_first_shell", tot.far_image_cases);
     run.set("exhaustive", true);
     run.set("rule", "three finite lattices of real states per (7 groups x 13 shapes): (1) generic grid of cell ratio x angle (around the old heuristic's thresholds) x site coordinates dense near 0, +-1/4, +-1/2 x orientations x a geometric length ladder from dilute to denser than physically possible; (2) displacement-directed: for every pair of copies the site is solved so that the pair sits at a chosen Cartesian displacement |v| < 2R modulo the lattice, the wrap deciding which image realises it; (3) special positions reached by bound clamping and the initial site under pure cell shrinking. Every state goes through the crate's deserialiser and score(); every scored state is judged by a brute-force search over all images within 2R (separating-axis / disc-distance depth > 1e-9). Non-trivial = scored states in which at least one pair of distinct images lies within 2R.");
-    run.set("explanation", "states = lattice states the crate scored plus distinct states of the chained-stage search; transitions = lattice states evaluated plus real optimiser stages executed. The search (engine rsx) starts from the initial and a dense state of every group x hard shape, takes 28 scripted actions per state to the reported depth, and applies the same all-images oracle to every state the optimiser scores on the way, accepted or merely proposed.");
+    run.set("explanation", "states = lattice states the crate scored plus distinct states of the chained-stage search; transitions = lattice states evaluated plus real optimiser stages executed. The search (engine rsx) starts from the initial and a dense state of every group x hard shape, takes 35 scripted actions per state to the reported depth, and applies the same all-images oracle to every state the optimiser scores on the way, accepted or merely proposed.");
     run.sample(json!({"group": "p2", "shape": "trimer(0.637556,120,1)", "params": {"length": 5.6286, "ratio": 0.51, "angle": PI / 2., "x": -0.2856, "y": 0.472, "phi": 5.364}, "note": "copies 0 and 1 overlap through image (-1,2)"}));
     run.require(tot.scored > 1000 && tot.nontrivial > 1000, "too few scored / non-trivial states");
     run.finish()
@@ -467,7 +524,19 @@ pub fn lj_oracle(st: &AnyState, shape: &Value, p: &Params) -> Option<LjOracle> {
                     }
                     let tj = Aff::from_t2(&placements[j]).shifted(l).to_t2();
                     let moved = s.shape.transform(&tj);
-                    let e = 0.5 * (shapes[i].energy(&moved) + moved.energy(&shapes[i]));
+                    // like particles: the 12-6 law in closed form (independent of the crate and
+                    // of anything it may remember between calls); unlike particles: the crate's
+                    // own pair energy, symmetrised (the property fixes no mixing rule)
+                    let mut e = 0.;
+                    for a in shapes[i].items.iter() {
+                        for b in moved.items.iter() {
+                            if a.sigma == b.sigma && a.epsilon == b.epsilon && a.cutoff == b.cutoff {
+                                e += lj_closed_form(a.sigma, a.epsilon, a.cutoff, (a.position - b.position).norm());
+                            } else {
+                                e += 0.5 * (a.energy(b) + b.energy(a));
+                            }
+                        }
+                    }
                     sum += e;
                     pairs += 1;
                     if e != 0. && (nn.abs() > 3 || mm.abs() > 3) {
@@ -496,7 +565,30 @@ pub fn c03_shapes() -> Vec<ShapeSpec> {
         ShapeSpec::LjTrimer(0.7, 180., 1.5),
         ShapeSpec::LjTrimer(1., 180., 2.),
         ShapeSpec::LjTrimer(0.5, 60., 1.2),
+        // particles whose well depth is not 1: alone, and next to an equally sized unit one
+        ShapeSpec::LjCustom("disc-eps3".into(), vec![(0., 0., 1., 3., Some(2.5))]),
+        ShapeSpec::LjCustom("dumbbell-eps1-4".into(), vec![(-0.5, 0., 1., 1., Some(2.5)), (0.5, 0., 1., 4., Some(2.5))]),
     ]
+}
+
+/// Variants of an LJ molecule that differ in one particle parameter only (scored between two
+/// evaluations of a state to expose anything the crate carries over from one call to the next).
+pub fn lj_decoys(shape: &Value) -> Vec<Value> {
+    let mut out = vec![];
+    for (field, factor) in [("epsilon", 3.), ("epsilon", 1. / 3.), ("cutoff", 1.25), ("sigma", 1.1)].iter() {
+        let mut v = shape.clone();
+        let mut changed = false;
+        for it in v["items"].as_array_mut().unwrap().iter_mut() {
+            if let Some(x) = it[*field].as_f64() {
+                it[*field] = json!(x * factor);
+                changed = true;
+            }
+        }
+        if changed {
+            out.push(v);
+        }
+    }
+    out
 }
 
 /// Convergence error the property allows an uncut potential: the r^-6 tail beyond the distance
@@ -573,14 +665,17 @@ pub fn c03(tier: Tier) -> ! {
         let n = ita_ops(group).len();
         let r = body.enclosing_radius();
         let ratios = tier.pick(vec![1., 0.7, 0.4], vec![1., 0.85, 0.7, 0.55, 0.4]);
-        let angles: Vec<f64> = if ita_family(group) == "Monoclinic" { tier.pick(vec![PI / 2., 1.2], vec![PI / 2., 1.2, PI / 3.]) } else { vec![PI / 2.] };
+        let angles: Vec<f64> = if ita_family(group) == "Monoclinic" { tier.pick(vec![PI / 2., 1.2, 2.1], vec![PI / 2., 1.2, PI / 3., 2.1, 2.5]) } else { vec![PI / 2.] };
         let xs = tier.pick(vec![-0.4, -0.25, 0.1, 0.37, 0.5], vec![-0.5, -0.4, -0.25, -0.1, 0., 0.1, 0.2, 0.37, 0.49, 0.5]);
         let phis = tier.pick(vec![0., 0.3, 2.5], vec![0., 0.3, 1.2, 2.5, 4., 5.9]);
         let mut evals = 0u64;
         let mut redesc = 0u64;
         let mut nontrivial = 0u64;
+        let mut rescored = 0u64;
         let mut fails: Vec<(Option<&'static str>, String, Value)> = vec![];
         let mut fail_count = 0u64;
+        let decoy_tpls: Vec<StateTemplate> = lj_decoys(&sj).iter().map(|d| StateTemplate::new(group, d)).collect();
+        let mono_free = *group == "p1" || *group == "p2";
         for &ratio in ratios.iter() {
             for &angle in angles.iter() {
                 // from dilute (2R n) down to compressed
@@ -609,6 +704,54 @@ pub fn c03(tier: Tier) -> ! {
                                     fail_count += 1;
                                     if fails.len() < 2 {
                                         fails.push((key, format!("{} {}: {}", group, spec.label(), what), json!({"engine": "state", "group": group, "shape": sj, "shape_label": spec.label(), "params": p.json()})));
+                                    }
+                                }
+                                // the score of a state does not depend on what was scored before
+                                // it: decoys differ in one particle parameter only
+                                if phi == phis[0] {
+                                    for dt in decoy_tpls.iter() {
+                                        let decoy = AnyState::from_json(&dt.with(&p)).unwrap_or_else(|e| machinery_error(&e));
+                                        let _ = decoy.score();
+                                        let again = st.score();
+                                        rescored += 1;
+                                        if again.map(f64::to_bits) != base_score.map(f64::to_bits) {
+                                            fail_count += 1;
+                                            if fails.len() < 6 {
+                                                fails.push((None, format!("{} {}: the state scores {:?}, and {:?} after a state of different particles was scored", group, spec.label(), base_score, again), json!({"engine": "state", "group": group, "shape": sj, "shape_label": spec.label(), "params": p.json()})));
+                                            }
+                                            break;
+                                        }
+                                    }
+                                }
+                                // the same crystal in another cell: second cell vector B -> B - A
+                                // (often an obtuse cell) and B -> B + A; the operations of p1 and p2
+                                // keep their form in any basis
+                                if mono_free {
+                                    for &sgn in [-1f64, 1.].iter() {
+                                        let (a, b) = (length, length * ratio);
+                                        let bx = b * angle.cos() + sgn * a;
+                                        let by = b * angle.sin();
+                                        let b2 = (bx * bx + by * by).sqrt();
+                                        let q = Params { length, ratio: b2 / a, angle: by.atan2(bx), x: wrap_half(x - sgn * y), y, phi };
+                                        let st2 = AnyState::from_json(&tpl.with(&q)).unwrap_or_else(|e| machinery_error(&e));
+                                        redesc += 1;
+                                        let s2 = st2.score();
+                                        let singular = |s: Option<f64>| s.map(|v| v < -1e9).unwrap_or(true);
+                                        let cut = o.as_ref().and_then(|v| v.cutoff);
+                                        let allow = truncation_allowance(cut, n, &sj, &p) + truncation_allowance(cut, n, &sj, &q);
+                                        let same = match (base_score, s2) {
+                                            (Some(u), Some(v)) => (u - v).abs() <= 1e-9 * u.abs().max(v.abs()).max(1.) + allow || (singular(Some(u)) && singular(Some(v))),
+                                            (u, v) => singular(u) && singular(v),
+                                        };
+                                        if !same {
+                                            fail_count += 1;
+                                            let o2 = lj_oracle(&st2, &sj, &q);
+                                            let beyond = |x: &Option<LjOracle>| x.as_ref().map(|v| v.cutoff.is_some() && v.interacting_beyond_third_shell).unwrap_or(false);
+                                            let rkey = if beyond(&o) || beyond(&o2) { Some("lj-interacting-pair-beyond-third-shell") } else { None };
+                                            if fails.len() < 2 || rkey.is_none() && fails.len() < 6 {
+                                                fails.push((rkey, format!("{} {}: the same crystal described in the cell (A, B{}A) (ratio {}, angle {}) scores {:?} instead of {:?}", group, spec.label(), if sgn < 0. { "-" } else { "+" }, q.ratio, q.angle, s2, base_score), json!({"engine": "state", "group": group, "shape": sj, "shape_label": spec.label(), "params": p.json(), "shifted_params": q.json()})));
+                                            }
+                                        }
                                     }
                                 }
                                 // re-descriptions of the same crystal: a copy moved across a face,
@@ -685,10 +828,12 @@ pub fn c03(tier: Tier) -> ! {
                 }
             }
         }
-        (evals, redesc, nontrivial, fail_count, fails)
+        (evals, redesc, nontrivial, fail_count, fails, rescored)
     });
     let (mut evals, mut redesc, mut nontrivial, mut fc) = (0u64, 0u64, 0u64, 0u64);
-    for (e, r, n, f, fails) in results {
+    let mut rescored = 0u64;
+    for (e, r, n, f, fails, rs) in results {
+        rescored += rs;
         evals += e;
         redesc += r;
         nontrivial += n;
@@ -737,6 +882,7 @@ pub fn c03(tier: Tier) -> ! {
     run.set("distinct_nontrivial", nontrivial);
     run.set("states_compared_with_lattice_sum", evals);
     run.set("redescriptions_compared", redesc);
+    run.set("rescored_after_a_decoy_state", rescored);
     run.set("failing_cases", fc);
     run.set("exhaustive", true);
     run.set("rule", "complete product: 7 groups x 5 LJ shapes (uncut circle, 4 cut trimers) x cell ratio x angle x a length ladder from dilute to compressed x site grid x orientations; each state's score is compared with an independent lattice sum (every unordered pair of distinct molecule images once, out to cutoff + molecular extent or, uncut, to 60 sigma with an explicit tail bound), and with the score of every re-description of the same crystal (site shifted by a lattice vector or by a half lattice vector that commutes with the group). Non-trivial = states with at least one interacting image pair");
@@ -827,7 +973,7 @@ pub fn c04(tier: Tier) -> ! {
         let mono = ita_family(group) == "Monoclinic";
         let lengths = [0.5, 3., 40.];
         let ratios = [1., 0.73, 0.34, 0.1];
-        let angles: Vec<f64> = if mono { vec![PI / 2., 1.3, PI / 3., PI / 6.] } else { vec![PI / 2.] };
+        let angles: Vec<f64> = if mono { vec![PI / 2., 1.3, PI / 3., PI / 6., 2.1] } else { vec![PI / 2.] };
         let xs: Vec<f64> = tier.pick(vec![-0.5, -0.3, -0.25, 0., 0.1, 0.25, 0.41, 0.5], vec![-0.5, -0.45, -0.3, -0.25, -0.1, 0., 0.1, 0.2, 0.25, 0.33, 0.41, 0.49, 0.5]);
         let phis: Vec<f64> = tier.pick(vec![0., 0.4, PI / 2., 2.2, PI, 4.4, 2. * PI], vec![0., 0.4, 1., PI / 2., 2.2, PI, 3.7, 4.4, 5.5, 2. * PI]);
         let mut evals = 0u64;
@@ -887,6 +1033,54 @@ pub fn c04(tier: Tier) -> ! {
             run.fail(None, &w, c);
         }
     }
+    // depth-2 histories: every ordered pair of groups (A, B) with bit-identical cell and site
+    // numbers; on a fresh thread A's crystal is placed first, then B's, which is judged
+    let mut pair_jobs: Vec<(usize, usize, usize)> = vec![];
+    for a in 0..GROUP_NAMES.len() {
+        for b in 0..GROUP_NAMES.len() {
+            for k in 0..probes.len() {
+                if a != b {
+                    pair_jobs.push((a, b, k));
+                }
+            }
+        }
+    }
+    let pres = par_map(&pair_jobs, |_, &(ia, ib, k)| {
+        let (ga, gb) = (GROUP_NAMES[ia], GROUP_NAMES[ib]);
+        let sj = &probes[k].1;
+        let pts = body_from_json(sj).points();
+        let (ta, tb) = (StateTemplate::new(ga, sj), StateTemplate::new(gb, sj));
+        let mut bad = vec![];
+        let mut n = 0u64;
+        for &(x, y, phi) in [(0.1, 0.41, 0.4), (-0.25, -0.25, 0.), (-0.375, -0.375, 0.), (0.5, -0.5, PI)].iter() {
+            let p = Params { length: 3., ratio: 0.73, angle: PI / 2., x, y, phi };
+            let placed = std::thread::scope(|sc| {
+                sc.spawn(|| {
+                    let first = AnyState::from_json(&ta.with(&p)).unwrap_or_else(|e| machinery_error(&e));
+                    let _ = first.cartesian();
+                    let _ = first.score();
+                    AnyState::from_json(&tb.with(&p)).unwrap_or_else(|e| machinery_error(&e)).cartesian()
+                })
+                .join()
+                .unwrap_or_else(|_| machinery_error("a placement panicked"))
+            });
+            n += 1;
+            if let Some(what) = c04_judge(gb, &placed, &pts, &p) {
+                if bad.len() < 2 {
+                    bad.push((format!("{} ({}) placed right after the {} crystal with the same numbers on the same thread: {}", gb, probes[k].0, ga, what), json!({"engine": "group-pair", "first": ga, "second": gb, "shape": sj, "params": p.json()})));
+                }
+            }
+        }
+        (n, bad)
+    });
+    let mut pair_n = 0u64;
+    for (n, bad) in pres {
+        pair_n += n;
+        for (w, c) in bad {
+            run.fail(None, &w, c);
+        }
+    }
+    run.set("ordered_group_pairs_placed_on_one_thread", pair_n);
     // states reached by optimisation (angle and ratio drift): chained-stage search
     let sweep_cfg = crate::rsx::Sweep { depth: tier.pick(3, 5), cap: tier.pick(1000, 50_000), dense_steps: 300, shapes: crate::rsx::start_shapes(tier) };
     let (rf, rstarts) = crate::rsx::sweep(&sweep_cfg, &crate::rsx::Wants { c01: false, c04: true, c05: false, c08: false });
